@@ -2,7 +2,7 @@
 # usage: mutest.sh <property> <patch.diff> [tier]   — runs a check against a scratch worktree with the patch applied
 set -u
 ID=$1; PATCH=$2; TIER=${3:-quick}
-S=/tmp/scratch
+S=${SCRATCH_TREE:-/tmp/scratch}
 [ -d $S ] || git -C /repo worktree add -q --detach $S HEAD
 git -C $S checkout -q --detach $(git -C /repo rev-parse HEAD) 2>/dev/null
 git -C $S checkout -q -- . ; git -C $S clean -fdq
